@@ -28,6 +28,7 @@ void flat1d(Ctx& c) {
         std::memcpy(A.data(), a0, sizeof a0); launder(A.data());
         { Tensor<T, K> r = A(it); launder(r.data()); cmp_pick(c, r.data(), a0, offs, "r=A(it)", "", BASE); }
         { Tensor<T, K> r = cA(it); launder(r.data()); cmp_pick(c, r.data(), a0, offs, "r=constA(it)", "", BASE); }
+        if (reads % 7 == 0) { c04::routes<T, Tensor<T, K>, false>(c, [&]() { return A(it); }, a0, offs, "A(it)"); c04::routes<T, Tensor<T, K>, false>(c, [&]() { return cA(it); }, a0, offs, "constA(it)"); }
         { Tensor<T, K> r = A(it) * T(2) + T(1); launder(r.data()); for (size_t k = 0; k < K; ++k) c.eq(r.data()[k], (T)(a0[offs[k]] * T(2) + T(1)), "A(it)*2+1", (long)k, "wrong-element-selected"); }
         ++reads;
         if (dup) continue;
@@ -54,7 +55,7 @@ void flat1d(Ctx& c) {
 template <class T, size_t M, size_t N, size_t P, size_t Q, class Int>
 void axes2d(Ctx& c) {
     Rng g = c.rng();
-    Framed<Tensor<T, M, N>> FA; Tensor<T, M, N>& A = *FA;
+    Framed<Tensor<T, M, N>> FA; Tensor<T, M, N>& A = *FA; const Tensor<T, M, N>& cA = A;
     T a0[M * N], model[M * N]; Tensor<T, P, Q> Rt; fill_unique(a0, M * N, BASE); fill_parent(Rt.data(), P * Q, g);
     Tensor<Int, P> ir; Tensor<Int, Q> ic;
     size_t tr = 1, tc = 1; for (size_t k = 0; k < P; ++k) tr *= M; for (size_t k = 0; k < Q; ++k) tc *= N;
@@ -68,6 +69,8 @@ void axes2d(Ctx& c) {
         std::vector<int> offs; for (size_t i = 0; i < P; ++i) for (size_t j = 0; j < Q; ++j) offs.push_back((int)(ir.data()[i] * N + ic.data()[j]));
         std::memcpy(A.data(), a0, sizeof a0); launder(A.data());
         { Tensor<T, P, Q> r = A(ir, ic); launder(r.data()); cmp_pick(c, r.data(), a0, offs, "r=A(it0,it1)", "", BASE); }
+        { Tensor<T, P, Q> r = cA(ir, ic); launder(r.data()); cmp_pick(c, r.data(), a0, offs, "r=constA(it0,it1)", "", BASE); }
+        if (c.sub % 11 == 0) { c04::routes<T, Tensor<T, P, Q>, false>(c, [&]() { return A(ir, ic); }, a0, offs, "A(it0,it1)"); c04::routes<T, Tensor<T, P, Q>, false>(c, [&]() { return cA(ir, ic); }, a0, offs, "constA(it0,it1)"); }
         { Tensor<T, P, Q> r = A(ir, ic) - Rt; launder(r.data()); for (size_t k = 0; k < P * Q; ++k) c.eq(r.data()[k], (T)(a0[offs[k]] - Rt.data()[k]), "A(it0,it1)-R", (long)k, "wrong-element-selected"); }
         ++c.sub;
         if (dup) continue;
@@ -87,7 +90,7 @@ void axes2d(Ctx& c) {
 template <class T, size_t M, size_t N, size_t P, class Int, int F, int L, int S>
 void mixed2d(Ctx& c) {
     Rng g = c.rng();
-    Framed<Tensor<T, M, N>> FA; Tensor<T, M, N>& A = *FA; T a0[M * N], model[M * N]; fill_unique(a0, M * N, BASE);
+    Framed<Tensor<T, M, N>> FA; Tensor<T, M, N>& A = *FA; const Tensor<T, M, N>& cA = A; T a0[M * N], model[M * N]; fill_unique(a0, M * N, BASE);
     R1 rc = c04::norm_fixed(F, L, S, (int)N), rr = c04::norm_fixed(F, L, S, (int)M);
     for (int it = 0; it < 600; ++it) {
         Tensor<Int, P> ir, ic; bool okr = P <= M, okc = P <= N;
@@ -100,18 +103,26 @@ void mixed2d(Ctx& c) {
         // A(it, int)
         offs.clear(); for (size_t k = 0; k < P; ++k) offs.push_back((int)(ir.data()[k] * N + num_c));
         { Tensor<T, P, 1> r = A(ir, opaque(num_c)); launder(r.data()); cmp_pick(c, r.data(), a0, offs, "r=A(it,int)", "", BASE); }
+        { Tensor<T, P, 1> r = cA(ir, opaque(num_c)); launder(r.data()); cmp_pick(c, r.data(), a0, offs, "r=constA(it,int)", "", BASE); }
+        if (it % 9 == 0) { c04::routes<T, Tensor<T, P, 1>, false>(c, [&]() { return A(ir, num_c); }, a0, offs, "A(it,int)"); c04::routes<T, Tensor<T, P, 1>, false>(c, [&]() { return cA(ir, num_c); }, a0, offs, "constA(it,int)"); }
         if (okr) { std::memcpy(model, a0, sizeof a0); for (int o : offs) model[o] = a0[o] + T(3); A(ir, num_c) += T(3); launder(A.data()); cmp_parent(c, A.data(), model, M * N, offs, "A(it,int)+=3"); std::memcpy(A.data(), a0, sizeof a0); }
         // A(int, it)
         offs.clear(); for (size_t k = 0; k < P; ++k) offs.push_back((int)(num_r * N + ic.data()[k]));
         { Tensor<T, P, 1> r = A(opaque(num_r), ic); launder(r.data()); cmp_pick(c, r.data(), a0, offs, "r=A(int,it)", "", BASE); }
+        { Tensor<T, P, 1> r = cA(opaque(num_r), ic); launder(r.data()); cmp_pick(c, r.data(), a0, offs, "r=constA(int,it)", "", BASE); }
+        if (it % 9 == 1) { c04::routes<T, Tensor<T, P, 1>, false>(c, [&]() { return A(num_r, ic); }, a0, offs, "A(int,it)"); c04::routes<T, Tensor<T, P, 1>, false>(c, [&]() { return cA(num_r, ic); }, a0, offs, "constA(int,it)"); }
         if (okc) { std::memcpy(model, a0, sizeof a0); for (int o : offs) model[o] = a0[o] * T(2); A(num_r, ic) *= T(2); launder(A.data()); cmp_parent(c, A.data(), model, M * N, offs, "A(int,it)*=2"); std::memcpy(A.data(), a0, sizeof a0); }
         // A(it, fseq)
         offs.clear(); for (size_t k = 0; k < P; ++k) for (int j = 0; j < rc.m; ++j) offs.push_back((int)(ir.data()[k] * N + rc.f + j * rc.s));
         { Tensor<T, P, c04::cext(F, L, S, (int)N)> r = A(ir, fseq<F, L, S>()); launder(r.data()); cmp_pick(c, r.data(), a0, offs, "r=A(it,fseq)", show(rc), BASE); }
+        { Tensor<T, P, c04::cext(F, L, S, (int)N)> r = cA(ir, fseq<F, L, S>()); launder(r.data()); cmp_pick(c, r.data(), a0, offs, "r=constA(it,fseq)", show(rc), BASE); }
+        if (it % 9 == 2) { c04::routes<T, Tensor<T, P, c04::cext(F, L, S, (int)N)>, false>(c, [&]() { return A(ir, fseq<F, L, S>()); }, a0, offs, "A(it,fseq)"); c04::routes<T, Tensor<T, P, c04::cext(F, L, S, (int)N)>, false>(c, [&]() { return cA(ir, fseq<F, L, S>()); }, a0, offs, "constA(it,fseq)"); }
         if (okr) { std::memcpy(model, a0, sizeof a0); for (int o : offs) model[o] = a0[o] - T(5); A(ir, fseq<F, L, S>()) -= T(5); launder(A.data()); cmp_parent(c, A.data(), model, M * N, offs, "A(it,fseq)-=5"); std::memcpy(A.data(), a0, sizeof a0); }
         // A(fseq, it)
         offs.clear(); for (int i = 0; i < rr.m; ++i) for (size_t k = 0; k < P; ++k) offs.push_back((int)((rr.f + i * rr.s) * N + ic.data()[k]));
         { Tensor<T, c04::cext(F, L, S, (int)M), P> r = A(fseq<F, L, S>(), ic); launder(r.data()); cmp_pick(c, r.data(), a0, offs, "r=A(fseq,it)", show(rr), BASE); }
+        { Tensor<T, c04::cext(F, L, S, (int)M), P> r = cA(fseq<F, L, S>(), ic); launder(r.data()); cmp_pick(c, r.data(), a0, offs, "r=constA(fseq,it)", show(rr), BASE); }
+        if (it % 9 == 3) { c04::routes<T, Tensor<T, c04::cext(F, L, S, (int)M), P>, false>(c, [&]() { return A(fseq<F, L, S>(), ic); }, a0, offs, "A(fseq,it)"); c04::routes<T, Tensor<T, c04::cext(F, L, S, (int)M), P>, false>(c, [&]() { return cA(fseq<F, L, S>(), ic); }, a0, offs, "constA(fseq,it)"); }
         if (okc) { std::memcpy(model, a0, sizeof a0); for (int o : offs) model[o] = T(7); A(fseq<F, L, S>(), ic) = T(7); launder(A.data()); cmp_parent(c, A.data(), model, M * N, offs, "A(fseq,it)=7"); std::memcpy(A.data(), a0, sizeof a0); }
         ++c.sub;
     }
@@ -124,7 +135,7 @@ template <class T, size_t... D, size_t... I, class Int>
 struct FLATND<T, Index<D...>, Index<I...>, Int> {
     static void run(Ctx& c) {
         Rng g = c.rng();
-        Framed<Tensor<T, D...>> FA; Tensor<T, D...>& A = *FA; constexpr size_t SZ = Tensor<T, D...>::size(); constexpr size_t K = Tensor<Int, I...>::size();
+        Framed<Tensor<T, D...>> FA; Tensor<T, D...>& A = *FA; const Tensor<T, D...>& cA = A; constexpr size_t SZ = Tensor<T, D...>::size(); constexpr size_t K = Tensor<Int, I...>::size();
         T a0[SZ], model[SZ]; fill_unique(a0, SZ, BASE); Tensor<T, I...> Rt; fill_parent(Rt.data(), K, g);
         for (int it = 0; it < 1500; ++it) {
             Tensor<Int, I...> idx; bool unique = it % 2 == 0 && K <= SZ;
@@ -134,6 +145,8 @@ struct FLATND<T, Index<D...>, Index<I...>, Int> {
             std::vector<int> offs(K); for (size_t k = 0; k < K; ++k) offs[k] = (int)idx.data()[k];
             std::memcpy(A.data(), a0, sizeof a0); launder(A.data());
             { Tensor<T, I...> r = A(idx); launder(r.data()); cmp_pick(c, r.data(), a0, offs, "r=A(flat-index-tensor)", "", BASE); }
+            { Tensor<T, I...> r = cA(idx); launder(r.data()); cmp_pick(c, r.data(), a0, offs, "r=constA(flat-index-tensor)", "", BASE); }
+            if (it % 13 == 0) { c04::routes<T, Tensor<T, I...>, false>(c, [&]() { return A(idx); }, a0, offs, "A(flat-index-tensor)"); c04::routes<T, Tensor<T, I...>, false>(c, [&]() { return cA(idx); }, a0, offs, "constA(flat-index-tensor)"); }
             { Tensor<T, I...> r = A(idx) + Rt; launder(r.data()); for (size_t k = 0; k < K; ++k) c.eq(r.data()[k], (T)(a0[offs[k]] + Rt.data()[k]), "A(idx)+R", (long)k, "wrong-element-selected"); }
             if (unique) {
                 int op = it % 5; std::memcpy(model, a0, sizeof a0);
